@@ -66,6 +66,14 @@ def classify_stderr(text, repo=None):
         m = re.search(r"arguments to (\S+) were incorrect, assertion \"([^\"]*)\"", text)
         kind = "api-check:%s" % (m.group(1) if m else "?")
     if kind is None:
+        m = re.search(r"==\d+== (Invalid (?:read|write|free)[^\n]*|Conditional jump or move depends on uninitialised[^\n]*|"
+                      r"Use of uninitialised value[^\n]*|Syscall param [^\n]*uninitialised[^\n]*|Mismatched free[^\n]*|"
+                      r"Source and destination overlap[^\n]*)", text)
+        if m:
+            kind = "memcheck:" + re.sub(r"\d+", "N", m.group(1))[:50].strip().replace(" ", "-")
+            m2 = re.search(r"==\d+==\s+(?:at|by) 0x[0-9A-F]+: (\S+) \((?:dbus-|bus|signals|driver|dispatch|connection|services|policy|activation|config|utils|expirelist)", text)
+            return kind, (m2.group(1) if m2 else "?")
+    if kind is None:
         return None
     site = "?"
     for fm in _frame_re.finditer(text):
